@@ -233,6 +233,13 @@ impl<'a> CompilerState<'a> {
         self.variables.get(name).unwrap()
     }
 
+    pub fn find_variable(&self, name: &str, loc: usize) -> Result<&Variable, Error> {
+        match self.variables.get(name) {
+            Some(v) => Ok(v),
+            None => Err(self.syntax_error(&format!("{} is not a variable", name), loc)),
+        }
+    }
+
     pub fn sorted_functions(&self) -> Vec<(&String, &Function<'a>)> {
         let mut v: Vec<(&String, &Function)> = self.functions.iter().collect();
         v.sort_by(|a, b| a.1.order.cmp(&b.1.order));
